@@ -113,6 +113,7 @@ PROPS["C11"] = {
         {"name": "fam-g2-w64-765", "world": "W64-765", "src": "props/C04_fam.c", "tiers": ("thorough",), "args": ["--only", "c11-"], "share": 0.02},
         {"name": "fam-g2-w64-766", "world": "W64-766", "src": "props/C04_fam.c", "tiers": ("thorough",), "args": ["--only", "c11-"], "share": 0.02},
         {"name": "fam-g2-w64-768", "world": "W64-768", "src": "props/C04_fam.c", "tiers": ("thorough",), "args": ["--only", "c11-"], "share": 0.02},
+        {"name": "fam-g2-w64-638q", "world": "W64-638q", "src": "props/C04_fam.c", "tiers": ("thorough",), "args": ["--only", "c11-"], "share": 0.02},
     ],
 }
 
@@ -147,6 +148,7 @@ PROPS["C12"] = {
         {"name": "fam-pc-w64-765", "world": "W64-765", "src": "props/C04_fam.c", "tiers": ("thorough",), "args": ["--only", "c12-"]},
         {"name": "fam-pc-w64-766", "world": "W64-766", "src": "props/C04_fam.c", "tiers": ("thorough",), "args": ["--only", "c12-"]},
         {"name": "fam-pc-w64-768", "world": "W64-768", "src": "props/C04_fam.c", "tiers": ("thorough",), "args": ["--only", "c12-"]},
+        {"name": "fam-pc-w64-638q", "world": "W64-638q", "src": "props/C04_fam.c", "tiers": ("thorough",), "args": ["--only", "c12-"]},
     ],
 }
 
@@ -181,6 +183,7 @@ PROPS["C04"] = {
         {"name": "fam-w64-765", "world": "W64-765", "src": "props/C04_fam.c", "tiers": ("thorough",), "args": ["--only", "c04-"]},
         {"name": "fam-w64-766", "world": "W64-766", "src": "props/C04_fam.c", "tiers": ("thorough",), "args": ["--only", "c04-"]},
         {"name": "fam-w64-768", "world": "W64-768", "src": "props/C04_fam.c", "tiers": ("thorough",), "args": ["--only", "c04-"]},
+        {"name": "fam-w64-638q", "world": "W64-638q", "src": "props/C04_fam.c", "tiers": ("thorough",), "args": ["--only", "c04-"]},
     ],
 }
 
@@ -223,7 +226,7 @@ PROPS["C13"] = {
     "level": "model_checking",
     "technique": "exhaustive enumeration of complete input spaces of the map-from-randomness entry point on tiny curves (every pair of 2-byte strings = all p^2 pairs of field elements incl. every exceptional element and the non-canonical values >= p), message-length x pattern and exceptional-element alphabets at shipped sizes, against the documented construction re-implemented from its definition (expand_message_xmd on OpenSSL SHA-256, simplified SWU / Shallue-van de Woestijne on GMP, stated sign rule, stored isogeny, reference addition and cofactor clearing)",
     "level_text": "Complete: on five ~1000-point tiny curves (a b != 0: simplified SWU; a = 0: Shallue-van de Woestijne; prime order and cofactor 2/4) ep_map_rnd sees every pair (u0, u1) in [0, p + 6)^2 plus the top of the 16-bit range; on three 16-bit curves every u0 in [0, 65536) against a small alphabet of u1 and vice versa; each result must be on the curve, in the order-r subgroup and EQUAL to the reference construction; a too-short string must be refused. Shipped sizes (six 256-bit curves; B12_P381 with its isogeny in the 381-bit build; the 255-bit build): ep_map_sswum, ep_map_basic, ep_map_swift, ep_map for every message length 0..120 (thorough 0..200, 255, 256, 257, 1000) x 3 byte patterns: valid, deterministic, sensitive to the last bit, and (sswum, ep_map, basic) equal to the reference; ep_map_rnd on a field-element alphabet containing 0, 1, p-1, p, p+1, 2p, the maximal string and the reference-computed exceptional elements of each map. Map constants are re-derived from Z and the curve and compared (c3 only through its defining square). ep2_map_sswum/basic/swift, g2_map, g1_map, eb_map: valid subgroup point, deterministic, input-sensitive.",
-    "level_note": "Trusted: OpenSSL SHA-256 under the reference expand_message_xmd, GMP, reference group laws. The reference follows the source where the papers leave a choice: domain-separation tag = the project string INCLUDING its terminator for the SWU/SvdW entry points and without it for try-and-increment; sign of y made equal to the parity of t in the library's internal (Montgomery) representation; cofactor clearing by h, or by 1 - x on BLS12 curves. SwiftEC and the F_p^2 / binary / Edwards maps are judged for validity, determinism and input sensitivity only (no independent re-implementation). The thorough tier also runs the 446-bit builds (BN_P446; B12_P446 where its twist is defined, i.e. under FP_QNRES).",
+    "level_note": "Trusted: OpenSSL SHA-256 under the reference expand_message_xmd, GMP, reference group laws. The reference follows the source where the papers leave a choice: domain-separation tag = the project string INCLUDING its terminator for the SWU/SvdW entry points and without it for try-and-increment; sign of y made equal to the parity of t in the library's internal (Montgomery) representation; cofactor clearing by h, or by 1 - x on BLS12 curves. SwiftEC and the F_p^2 / binary / Edwards maps are judged for validity, determinism and input sensitivity only (no independent re-implementation). The thorough tier also runs the 446-bit builds (BN_P446; B12_P446 where its twist is defined, i.e. under FP_QNRES). Family builds (thorough, C04_fam.c bounds c13-): g1_map and g2_map in one build per pairing field size (158 .. 768 bits) over 24 message lengths 0..1000 x 3 patterns: the image is a valid group element of order r (on ep2 / ep3 / ep4 / ep8 for G2), the map is deterministic, one-bit neighbours map to different points; the map constants of those curves are not recomputed there.",
     "rule": "cases are (curve, u0, u1) or (curve, entry point, message length, pattern); all non-trivial; distinct by 64-bit hash; states = first elements of the complete pair spaces; transitions = results judged.",
     "assumptions": ["OpenSSL SHA-256", "reference maps written from RFC 9380 6.6.2 and draft-06 6.6.1", "calls inside RLC_TRY"],
     "jobs": [
@@ -231,6 +234,26 @@ PROPS["C13"] = {
         {"name": "map-w64", "world": "W64", "src": "props/C13_map.c", "ldflags": ["-lcrypto"], "share": 0.4},
         {"name": "map-w64-381", "world": "W64-381", "src": "props/C13_map.c", "ldflags": ["-lcrypto"], "share": 0.3},
         {"name": "map-w64-446", "world": "W64-446", "src": "props/C13_map.c", "ldflags": ["-lcrypto"], "tiers": ("thorough",)},
+        {"name": "fam-map-w64-315", "world": "W64-315", "src": "props/C04_fam.c", "tiers": ("thorough",), "args": ["--only", "c13-"]},
+        {"name": "fam-map-w64-330", "world": "W64-330", "src": "props/C04_fam.c", "tiers": ("thorough",), "args": ["--only", "c13-"]},
+        {"name": "fam-map-w64-638", "world": "W64-638", "src": "props/C04_fam.c", "tiers": ("thorough",), "args": ["--only", "c13-"]},
+        {"name": "fam-map-w64-575q", "world": "W64-575q", "src": "props/C04_fam.c", "tiers": ("thorough",), "args": ["--only", "c13-"]},
+        {"name": "fam-map-w64-544", "world": "W64-544", "src": "props/C04_fam.c", "tiers": ("thorough",), "args": ["--only", "c13-"]},
+        {"name": "fam-map-w64-158", "world": "W64-158", "src": "props/C04_fam.c", "tiers": ("thorough",), "args": ["--only", "c13-"]},
+        {"name": "fam-map-w64-254", "world": "W64-254", "src": "props/C04_fam.c", "tiers": ("thorough",), "args": ["--only", "c13-"]},
+        {"name": "fam-map-w64-317", "world": "W64-317", "src": "props/C04_fam.c", "tiers": ("thorough",), "args": ["--only", "c13-"]},
+        {"name": "fam-map-w64-354", "world": "W64-354", "src": "props/C04_fam.c", "tiers": ("thorough",), "args": ["--only", "c13-"]},
+        {"name": "fam-map-w64-377", "world": "W64-377", "src": "props/C04_fam.c", "tiers": ("thorough",), "args": ["--only", "c13-"]},
+        {"name": "fam-map-w64-382", "world": "W64-382", "src": "props/C04_fam.c", "tiers": ("thorough",), "args": ["--only", "c13-"]},
+        {"name": "fam-map-w64-383", "world": "W64-383", "src": "props/C04_fam.c", "tiers": ("thorough",), "args": ["--only", "c13-"]},
+        {"name": "fam-map-w64-455", "world": "W64-455", "src": "props/C04_fam.c", "tiers": ("thorough",), "args": ["--only", "c13-"]},
+        {"name": "fam-map-w64-508", "world": "W64-508", "src": "props/C04_fam.c", "tiers": ("thorough",), "args": ["--only", "c13-"]},
+        {"name": "fam-map-w64-509", "world": "W64-509", "src": "props/C04_fam.c", "tiers": ("thorough",), "args": ["--only", "c13-"]},
+        {"name": "fam-map-w64-510", "world": "W64-510", "src": "props/C04_fam.c", "tiers": ("thorough",), "args": ["--only", "c13-"]},
+        {"name": "fam-map-w64-765", "world": "W64-765", "src": "props/C04_fam.c", "tiers": ("thorough",), "args": ["--only", "c13-"]},
+        {"name": "fam-map-w64-766", "world": "W64-766", "src": "props/C04_fam.c", "tiers": ("thorough",), "args": ["--only", "c13-"]},
+        {"name": "fam-map-w64-768", "world": "W64-768", "src": "props/C04_fam.c", "tiers": ("thorough",), "args": ["--only", "c13-"]},
+        {"name": "fam-map-w64-638q", "world": "W64-638q", "src": "props/C04_fam.c", "tiers": ("thorough",), "args": ["--only", "c13-"]},
         {"name": "map-w64-255", "world": "W64-255", "src": "props/C13_map.c", "ldflags": ["-lcrypto"]},
     ],
 }
